@@ -28,14 +28,52 @@ CLAIMED['C05'] = dict(
     note='Trusted: Kani/CBMC; libclang CXEvalResult contract stub (getAsInt truncates, getAsLongLong/getAsUnsigned do not). Not covered: cexpr macro evaluation (disagrees with C for unsigned/overflowing expressions, documented), floats, strings, enumerator extraction.',
     ref='DESIGN.md section 3, C05')
 
+CLAIMED['C01'] = dict(
+    text='Narrow kernel of a very wide property: bounded model checking of the escaping DECISION of BindgenContext::rust_mangle (its condition, sliced verbatim) on every identifier of length 1..8 over [a-z0-9_$@?SA] - every Rust keyword and every name with $ @ ? is escaped and nothing else is, so definition and use sites agree; plus the compile-critical accessor/constructor templates for union parents (shared with C03; this is where finding F6, bindings that do not compile, was found).',
+    note='Trusted: Kani/CBMC; keyword list of the Rust Reference written in the harness. Not covered: the escaping itself (String::replace: not encodable, measured), path resolution, generics, derive soundness as rustc sees it, every other quote! template - i.e. most of the property.',
+    ref='DESIGN.md section 3, C01')
+CLAIMED['C04'] = dict(
+    text='Kernel level: bounded model checking of the link-name decision - utils::names_will_be_identical_after_mangling equals the x86 decoration table (cdecl _name, stdcall _name@N, fastcall @name@N) for all names up to 3/7 bytes and 9 ABI cases, and the two real call-site statements (Function::codegen, Var::codegen): a binding without #[link_name] has a Rust name that decorates to the C symbol, and an emitted #[link_name] names the C symbol. The ABI feature gate is checked under C14.',
+    note='Trusted: Kani/CBMC; decoration table in the harness. Not covered: argument lowering, by-value aggregates, variadics, libclang mangling, method receivers, actually calling anything.',
+    ref='DESIGN.md section 3, C04')
+CLAIMED['C07'] = dict(
+    text='Local obligations that imply the least-fixed-point / order-independence property (Kildall): for HasFloat, HasDestructor, HasVtable, Sizedness, HasTypeParameterInArray and CannotDerive x5 traits the REAL constrain() is applied once to a node of each TypeKind variant from an ARBITRARY analysis state (solver-chosen) on a stub IR with the real Trace impls: it writes only its own entry, new fact = old fact JOIN rule(neighbours), Changed/Same is truthful, the rule is monotone in each neighbour, and whenever a neighbour influences the result the node is subscribed to it (real Trace edges + the analysis own consider_edge). generate_dependencies is checked to record exactly those pairs, and the real work-list loop is checked on a symbolic generic framework (with a failing twin). Finding F4 (opaque items read unsubscribed neighbours) is reported as KNOWN-FINDING.',
+    note='Trusted: Kani/CBMC; the stub IR (same names, flags for name/option-derived predicates); the composition argument is on paper. Not covered: UsedTemplateParameters, edges libclang fails to create, lookups in codegen, nodes with more than 3 neighbour slots.',
+    ref='DESIGN.md section 3, C07')
+CLAIMED['C08'] = dict(
+    text='Rule level: for each of the five DeriveTraits and each TypeKind variant the real CannotDerive::constrain (constrain_type, constrain_join, insert, the blocklisted-type decision of context.rs, FunctionSig::function_pointers_can_derive) produces exactly max(previous fact, SPEC) where SPEC is an independent transcription of the documented rules, from an arbitrary pre-state - both directions (never derived when forbidden, never withheld when allowed). Plus the CanDerive lattice laws.',
+    note='Trusted: Kani/CBMC; the specification in harness/ir_derive_spec.rs; stub IR. Equality of one-step functions implies equality of least fixed points (paper). Not covered: rustc acceptance, hand-written impl bodies, derives_of_item, option gates in context.rs.',
+    ref='DESIGN.md section 3, C08')
+CLAIMED['C09'] = dict(
+    text='Traversal level: per TypeKind variant the edges emitted by the real Trace impls equal the references the IR node holds; one ItemTraversal::next() from an arbitrary (seen, queue) state yields the queue top, records exactly its predicate-admitted successors (closure and minimality per step) and keeps the queue = unvisited discovered items; the allowlisting wrapper never yields a blocklisted item but follows its references; codegen_edges equals its documented table over all EdgeKinds and CodegenConfig values.',
+    note='Trusted: Kani/CBMC; stub IR. Not covered: root selection (regex crate, path strings), textual identity between runs, compiling the subset; the step-to-whole-run composition is on paper.',
+    ref='DESIGN.md section 3, C09')
+CLAIMED['C10'] = dict(
+    text='Three kernels: helpers::blob has exactly the requested size and alignment (all sizes <= 65536, alignments 0..64, ffi_safe/namespaces symbolic) and a plain array only where allowed; an opaque item exposes no Field/BaseMember edges and a blocklisted root is never yielded by the allowlisting traversal while its references are; a blocklisted (non-allowlisted) type derives exactly what the user vouches for (real decision closure of blocklisted_type_implements_trait inside the real derive rule).',
+    note='Trusted: Kani/CBMC; stub IR and layout stubs. Not covered: is_blocklisted / opaque_by_name (regex + paths), that use sites still name the type, layout with a user-supplied definition, the opaque path of CompInfo::codegen.',
+    ref='DESIGN.md section 3, C10')
+CLAIMED['C12'] = dict(
+    text='Kernel level: absence of panic, overflow, out-of-range shift, index error and unwrap on None for all inputs within the bounds of the input-facing kernel RustTarget::from_str over 45 shape-parameterised strings (digits symbolic); the same automatic checks are active in every harness of every other property. Finding F3 (1.0-nightly underflow) is repaired.',
+    note='Trusted: Kani/CBMC, dev-profile semantics; memchr/fmt::format stubs. Not covered: the several hundred expect/unwrap sites whose preconditions are libclang AST shapes, stack depth, termination, clang-rejected headers, file-system faults.',
+    ref='DESIGN.md section 3, C12')
+CLAIMED['C13'] = dict(
+    text='Codec level: parse(to_string(v)) = v for every value of EnumVariation, MacroTypeVariation, AliasVariation, NonCopyUnionStyle, Formatter, FieldVisibilityKind, Abi, RustEdition, nightly; RustTarget::from_str on shape-parameterised strings returns the decimal value written; CodegenConfig <-> --generate/--ignore-* for all 63 non-empty values through the real as_args closure and the real parse_codegen_config; header ordering: the clang command line of the builder rebuilt from command_line_flags() equals the original one for 1..4 headers.',
+    note='Trusted: Kani/CBMC; three listed mechanical rewrites (owned strings -> tokens) in the as_args / command_line_flags slices; clap parsing is modelled (positional header, -- separator). Not covered: clap derive layer, the 117-entry as_args/builder table, defaults, byte-identical bindings.',
+    ref='DESIGN.md section 3, C13')
+CLAIMED['C15'] = dict(
+    text='Bounded model checking of the real Bindings::write / format_tokens / rustfmt_path against a nondeterministic child process: for every spawn outcome, stdin refusal, <= 2 output bytes with a read error anywhere, wait() error and ANY raw 32-bit wait status (through the real ExitStatusExt::from_raw) write() returns Ok unless the writer fails, the body is the formatter output exactly when it ran to completion with status 0 or 3 and valid UTF-8, else the unformatted tokens; header comment and raw lines appear once, in order, for formatter none/prettyplease with a writer failing at any byte.',
+    note='Trusted: Kani/CBMC; process/io stubs; one rewrite (::std::thread::spawn -> synchronous stub). Not covered: token equality of formatter output, hangs/deadlocks/scheduling, large inputs.',
+    ref='DESIGN.md section 3, C15')
+
 NOT_APPLICABLE = {
+    'C17': 'the only computation of the property that is separable from libclang is DepfileSpec::to_string, which is String::replace x2 inside format!: not encodable under CBMC in reach (measured: three class-pattern instances of <= 3-byte names each ran into the 1200 s limit; gen/props/c17.py is kept but not registered); completeness/exactness of the file set needs libclang and clang -M',
     'C06': 'layout assertions are assembled by quote! templates inside CompInfo::codegen over numbers libclang supplies at run time; there is no separable computation to encode, and cross-target truth needs that target\'s C compiler (DESIGN.md section 3, C06)',
     'C11': 'quantifies over processes, hash seeds, thread interleavings and in-process histories; Kani has no concurrency/process model and the hash containers whose iteration order matters are exactly what the stub environment replaces (DESIGN.md section 3, C11)',
     'C16': 'serialize.rs writes C text while walking the real IR by item id; needs the real BindgenContext (not encodable under CBMC, measured) and a C compiler as oracle (DESIGN.md section 3, C16)',
 }
 
 PENDING = {p: 'planned (DESIGN.md section 3) but its check is not built yet; not claimed until it is' for p in
-           ['C01','C02','C03','C04','C05','C07','C08','C09','C10','C12','C13','C15','C17','C18'] if p not in CLAIMED}
+           ['C01','C02','C03','C04','C05','C07','C08','C09','C10','C12','C13','C15','C18'] if p not in CLAIMED}
 
 
 def main():
